@@ -23,6 +23,7 @@ type gen struct {
 	up    map[string][]string // ws -> itself and all (transitive) ancestors
 	edges map[string][]string // union role inheritance graph: principal -> inherited
 	heavy bool                // role-heavy schema: more roles, more inheritance, grants to inherited roles
+	extra []QueryD            // requests aimed at the repeated rules
 }
 
 func shuffled(r *kit.Rng, xs []string) []string {
@@ -342,7 +343,101 @@ func (g *gen) genRule(ws string, cyclic bool) (RuleD, bool) {
 	return rd, true
 }
 
+// genVsqlScenario: a scenario inside the VSQL subset (vsql.go): 1-2 workspaces of tables and roles; the
+// WORKSPACE block lists its GRANTs before its REVOKEs (the compiler rejects the other order there),
+// 1-3 ALTER WORKSPACE blocks hold GRANTs and REVOKEs in any order, with exact repeats.
+func genVsqlScenario(r *kit.Rng) *Scenario {
+	sc := &Scenario{Vsql: true}
+	typeNames := shuffled(r, []string{"ta", "tb", "tc", "td", "te", "tf"})
+	roleNames := shuffled(r, []string{"ra", "rb", "rc", "rd", "re"})
+	ti, ri := 0, 0
+	nws := 1 + r.Intn(2)
+	type tinfo struct {
+		name   string
+		fields []string
+	}
+	perWs := map[string][]tinfo{}
+	rolesOf := map[string][]string{}
+	rule := func(ws string) RuleD {
+		t := kit.Pick(r, perWs[ws])
+		rd := RuleD{Kind: kit.Pick(r, []string{"grant", "grant", "revoke"}), Flt: FiltD{K: "qnames", Names: []string{t.name}}, Role: kit.Pick(r, rolesOf[ws])}
+		// one operation per statement: the compiler writes a statement with several operations as one
+		// rule per operation, which would not map one to one onto the declared list
+		rd.Ops = subset(r, []string{"select", "insert", "update", "activate", "deactivate"}, 1, 1)
+		if r.Chance(1, 3) {
+			rd.Fields = subset(r, t.fields, 1, 2)
+			sort.Strings(rd.Fields)
+		}
+		sort.Strings(rd.Ops)
+		return rd
+	}
+	for wi, wn := range shuffled(r, []string{"wa", "wb", "wc"})[:nws] {
+		w := WsD{Name: wn}
+		for k := 0; k < 1+r.Intn(2); k++ {
+			t := TypeD{Name: typeNames[ti], Kind: kit.Pick(r, []string{"cdoc", "cdoc", "wdoc", "odoc"}), Fields: subset(r, fieldPool, 1, 3)}
+			sort.Strings(t.Fields)
+			ti++
+			w.Types = append(w.Types, t)
+			perWs[wn] = append(perWs[wn], tinfo{t.Name, t.Fields})
+		}
+		for k := 0; k < 2; k++ {
+			w.Roles = append(w.Roles, roleNames[ri])
+			rolesOf[wn] = append(rolesOf[wn], roleNames[ri])
+			ri++
+		}
+		if r.Chance(1, 2) {
+			w.Rules = append(w.Rules, RuleD{Kind: "grant", Ops: []string{"inherits"}, Flt: FiltD{K: "qnames", Names: []string{w.Roles[0]}}, Role: w.Roles[1]})
+		}
+		var gg, rr []RuleD
+		for k := 0; k < r.Intn(5); k++ {
+			if rd := rule(wn); rd.Kind == "grant" {
+				gg = append(gg, rd)
+			} else {
+				rr = append(rr, rd)
+			}
+		}
+		w.Rules = append(append(w.Rules, gg...), rr...)
+		sc.Wss = append(sc.Wss, w)
+		_ = wi
+	}
+	for k := 0; k < 1+r.Intn(3); k++ {
+		ws := kit.Pick(r, sc.Wss).Name
+		a := AlterD{Ws: ws}
+		for j := 0; j < 1+r.Intn(4); j++ {
+			rd := rule(ws)
+			a.Rules = append(a.Rules, rd)
+			if r.Chance(1, 2) { // the opposite, then the same again
+				o := rd
+				o.Kind = map[string]string{"grant": "revoke", "revoke": "grant"}[rd.Kind]
+				a.Rules = append(a.Rules, o, rd)
+			}
+		}
+		sc.Alter = append(sc.Alter, a)
+	}
+	for _, w := range sc.Wss {
+		for _, t := range perWs[w.Name] {
+			for _, role := range rolesOf[w.Name] {
+				for _, op := range subset(r, []string{"select", "insert", "update", "activate", "deactivate"}, 2, 4) {
+					q := QueryD{Ws: w.Name, Op: op, Res: t.name, Roles: []string{role}}
+					if (op == "select" || op == "insert" || op == "update") && r.Chance(1, 2) {
+						q.Flds = subset(r, t.fields, 1, 2)
+					}
+					sc.Queries = append(sc.Queries, q)
+				}
+			}
+		}
+		sc.Pub = append(sc.Pub, PubD{Ws: w.Name, Role: rolesOf[w.Name][0]})
+		for _, role := range rolesOf[w.Name] {
+			sc.RRA = append(sc.RRA, RRAD{Ws: w.Name, Role: role})
+		}
+	}
+	return sc
+}
+
 func genScenario(r *kit.Rng, tier string, idx int) *Scenario {
+	if idx%9 == 4 {
+		return genVsqlScenario(r)
+	}
 	g := &gen{r: r, sc: &Scenario{}, roles: map[string]string{}, tags: map[string]string{}, up: map[string][]string{}, edges: map[string][]string{}}
 	cyclic := idx%17 == 11
 	nws := 1 + []int{0, 0, 0, 1, 1, 1, 2, 2, 3, 3}[r.Intn(10)]
@@ -440,8 +535,127 @@ func genScenario(r *kit.Rng, tier string, idx int) *Scenario {
 		g.sc.Isolated = true
 		g.sc.Note = "role inheritance cycle: every request runs in a child process"
 	}
+	if !cyclic {
+		g.addRepeats()
+	}
 	g.genRequests(tier, cyclic)
+	g.sc.Queries = append(g.sc.Queries, g.extra...)
 	return g.sc
+}
+
+// addRepeats: rule sequences in which a rule is repeated EXACTLY after an opposing or overlapping
+// rule (GRANT, REVOKE, same GRANT / REVOKE, GRANT, same REVOKE; whole-operation and per field),
+// inside one workspace, through a later AlterWorkspace, and with the same text in an ancestor and a
+// descendant.  The ACL is an ordered list: the repeat must take effect again.
+func (g *gen) addRepeats() {
+	r := g.r
+	flip := map[string]string{"grant": "revoke", "revoke": "grant", "grantall": "revokeall", "revokeall": "grantall"}
+	n := []int{0, 1, 1, 2, 3}[r.Intn(5)]
+	for k := 0; k < n; k++ {
+		wi := r.Intn(len(g.sc.Wss))
+		w := &g.sc.Wss[wi]
+		var R RuleD
+		var cands []RuleD
+		for _, x := range w.Rules {
+			if !(len(x.Ops) == 1 && x.Ops[0] == "inherits") {
+				cands = append(cands, x)
+			}
+		}
+		if len(cands) > 0 && r.Chance(1, 2) {
+			R = kit.Pick(r, cands) // repeat a rule the workspace already declares
+			R.Skipped = ""
+		} else {
+			// a fresh triple on one table or function the workspace sees
+			vt, roles := g.visTypes(w.Name), g.visRoles(w.Name)
+			if len(vt) == 0 || len(roles) == 0 {
+				continue
+			}
+			t := vt[r.Intn(len(vt))]
+			R = RuleD{Kind: kit.Pick(r, []string{"grant", "grant", "revoke"}), Flt: FiltD{K: "qnames", Names: []string{t.Name}}, Role: kit.Pick(r, roles)}
+			switch {
+			case class(t.Kind) == "func":
+				R.Ops = []string{"execute"}
+			case t.Kind == "view":
+				R.Ops = subset(r, []string{"insert", "select", "update"}, 1, 2)
+			default:
+				R.Ops = subset(r, []string{"activate", "insert", "select", "update"}, 1, 2)
+			}
+			sort.Strings(R.Ops)
+			if len(t.Fields) > 0 && r.Chance(1, 2) {
+				R.Fields = subset(r, t.Fields, 1, 2)
+				sort.Strings(R.Fields)
+			}
+			w.Rules = append(w.Rules, R)
+		}
+		// the rule in between: the exact opposite, or an overlapping one (fewer operations, one field, all fields)
+		O := R
+		O.Kind = flip[R.Kind]
+		switch r.Intn(4) {
+		case 0:
+			if len(O.Ops) > 1 {
+				O.Ops = O.Ops[:1]
+			}
+		case 1:
+			if len(R.Fields) == 0 && R.Flt.K == "qnames" && (R.Kind == "grant" || R.Kind == "revoke") {
+				for _, t := range g.types {
+					if t.Name == R.Flt.Names[0] && len(t.Fields) > 0 {
+						O.Fields = []string{t.Fields[r.Intn(len(t.Fields))]}
+					}
+				}
+			} else {
+				O.Fields = nil
+			}
+		}
+		if O.Kind == "grantall" || O.Kind == "revokeall" {
+			O.Ops, O.Fields = nil, nil
+		}
+		seq := []RuleD{O, R}
+		if r.Chance(1, 4) {
+			seq = []RuleD{O, R, O, R}
+		}
+		target := w.Name
+		switch r.Intn(4) {
+		case 0: // all in the workspace's own declaration
+			w.Rules = append(w.Rules, seq...)
+		case 1: // the opposing rule at declaration, the repeat added later
+			w.Rules = append(w.Rules, seq[0])
+			g.sc.Alter = append(g.sc.Alter, AlterD{Ws: w.Name, Rules: seq[1:]})
+		case 2: // both added later
+			g.sc.Alter = append(g.sc.Alter, AlterD{Ws: w.Name, Rules: seq})
+		default: // the same text again in a descendant workspace
+			var desc []int
+			for di := range g.sc.Wss {
+				if di != wi {
+					for _, u := range g.up[g.sc.Wss[di].Name] {
+						if u == w.Name {
+							desc = append(desc, di)
+						}
+					}
+				}
+			}
+			if len(desc) == 0 {
+				w.Rules = append(w.Rules, seq...)
+			} else {
+				d := &g.sc.Wss[desc[r.Intn(len(desc))]]
+				d.Rules = append(d.Rules, seq...)
+				target = d.Name
+			}
+		}
+		// ask about exactly what the repeated rule is about
+		if R.Flt.K == "qnames" {
+			for _, tn := range R.Flt.Names {
+				oo := R.Ops
+				if len(oo) == 0 {
+					oo = []string{"select", "execute", "insert"}
+				}
+				for _, op := range oo {
+					for _, ff := range [][]string{nil, R.Fields, O.Fields} {
+						g.extra = append(g.extra, QueryD{Ws: target, Op: op, Res: tn, Flds: ff, Roles: []string{R.Role}})
+					}
+				}
+			}
+		}
+	}
 }
 
 func (g *gen) genRequests(tier string, cyclic bool) {
